@@ -179,7 +179,9 @@ pub fn generate(seed: u64) -> Sc {
                     _ => *r.pick(&lookups),
                 }.max(first));
             }
-            let nf: Vec<Option<String>> = (0..8).map(|_| if r.chance(1, 2) { Some(r.pick(&NET_FAULT_KINDS).to_string()) } else { None }).collect();
+            // a third of these runs meet a healthy network: a plain run over an earlier run's cache
+            let healthy = r.chance(1, 3);
+            let nf: Vec<Option<String>> = (0..8).map(|_| if !healthy && r.chance(1, 2) { Some(r.pick(&NET_FAULT_KINDS).to_string()) } else { None }).collect();
             degraded.push(Degraded { warm_days_before: before, warm_published_today: r.chance(1, 2), warm_lookups, csv_cache: r.chance(2, 3), lookups: lk.iter().map(|d| d.to_string()).collect(), net_faults: nf });
         }
     }
@@ -489,6 +491,12 @@ impl Engine for C12 {
             });
             st.bump("sim.processes");
             st.bump("probe.degraded_network_runs");
+            if dg.net_faults.iter().all(|f| f.is_none()) {
+                st.bump("probe.runs_over_an_earlier_runs_cache_with_a_healthy_network");
+            }
+            if obs.requests.is_empty() && !dg.lookups.is_empty() {
+                st.bump("probe.run_over_an_earlier_runs_cache_served_without_download");
+            }
             let ctx = format!("earlier run on {} (published_today {}) looked up {:?} and left a {} cache; today {} (published_today {}) one loader looks up {:?} with network faults {:?}", wtoday, dg.warm_published_today, dg.warm_lookups, if dg.csv_cache { "CSV" } else { "in-memory" }, today, pt, dg.lookups, dg.net_faults);
             if let Some(p) = &obs.panic {
                 push(Violation { kind: "panic".into(), signature: "panic in look-up over a cache with a failing network".into(), detail: format!("{}: {}", ctx, p) }, &mut violations);
@@ -929,6 +937,8 @@ impl Engine for C12 {
             "fault.obs_malformed_on_lookup_path",
             "probe.degraded_network_runs",
             "probe.degraded_lookup_failed_on_fault",
+            "probe.runs_over_an_earlier_runs_cache_with_a_healthy_network",
+            "probe.run_over_an_earlier_runs_cache_served_without_download",
             "probe.observations_listed_descending",
             "probe.observations_listed_late",
             "probe.observations_listed_twice",
